@@ -523,7 +523,12 @@ type internalRequest struct {
 }
 
 func (i *internalRequest) Execute(_ bool) {
-	panic("not implemented")
+	// Internal requests are never prepared statements. This is only reached if a backend answers one with an
+	// `UNPREPARED` error that names a cached ID; fail the request instead of bringing the whole process down.
+	select {
+	case i.err <- errors.New("unexpected unprepared response to an internal request"):
+	default:
+	}
 }
 
 func (i *internalRequest) Frame() interface{} {
@@ -557,7 +562,8 @@ type prepareRequest struct {
 }
 
 func (r *prepareRequest) Execute(_ bool) {
-	panic("not implemented")
+	// The `PREPARE` itself was answered with `UNPREPARED`: give up on this node and let the original request move on.
+	r.origRequest.Execute(true)
 }
 
 func (r *prepareRequest) Frame() interface{} {
